@@ -78,6 +78,14 @@ let () =
               (z_of_string f.(5)) (unhex f.(6)) recs names,
             run_mock7_text (z_of_string f.(1)) (z_of_string f.(2)) (f.(3) = "1") (parse_regs f.(4))
               (z_of_string f.(5)) (unhex f.(6)) lines names, 'A'
+          end else if f.(0) = "F" then begin
+            let below = if f.(1) = "." then [] else
+              List.map (fun x -> if x = "-" then None else Some (z_of_string x)) (String.split_on_char ',' f.(1)) in
+            let valid = if f.(3) = "all" then None
+              else Some (if f.(3) = "-" then [] else List.map bytes_of_string (String.split_on_char ',' f.(3))) in
+            let lines = List.map bytes_of_string ("MODULE Linux x86 ABCD1234 m1" :: List.map rec_text (rest 6)) in
+            run_frames7 below (parse_regs f.(2)) valid (z_of_string f.(4)) (unhex f.(5)) (List.map parse_rec (rest 6)),
+            run_frames7_text below (parse_regs f.(2)) valid (z_of_string f.(4)) (unhex f.(5)) lines, 'F'
           end else begin
             let valid = if f.(2) = "all" then None
               else Some (if f.(2) = "-" then [] else List.map bytes_of_string (String.split_on_char ',' f.(2))) in
